@@ -234,3 +234,112 @@ def make_cases(seed, count, maxdim=3, nobj=3, steps=7, ops=None, pq=0.3, pobs=0.
     for i in range(count):
         out += g.history("%d" % (start + i), nobj, steps, ops, pq, pobs)
     return out
+
+
+# ---------------------------------------------------------------------------------------------------
+# Families aimed at the lazy representation: a query must see pending rows, stale sortedness flags,
+# only-one-description-up-to-date states, exactly when it is the FIRST thing that happens after the
+# mutator (the object is therefore copied in its lazy state for every query of the battery).
+
+class Lazy(G):
+    def unit(self, n, i, s=1):
+        return [s if j == i else 0 for j in range(n)]
+
+    def box_gens(self, n, lo=0, hi=2):
+        pts = []
+        for m in range(1 << n):
+            pts.append("p 1 " + " ".join(str(hi if (m >> j) & 1 else lo) for j in range(n)))
+        return "%d %s" % (len(pts), " ".join(pts))
+
+    def base(self, oid, n, topo):
+        """a base object in one of several shapes, built by one of two routes"""
+        r = self.r
+        shape = r.choice(["box", "halfspace", "cone", "slab_line", "random"])
+        if shape == "box":
+            if r.random() < 0.5:
+                return "new %d %s %d gens %s" % (oid, topo, n, self.box_gens(n, r.randint(-1, 0), r.randint(1, 3)))
+            cs = []
+            for i in range(n):
+                cs.append(">= %d %s" % (r.randint(0, 1), " ".join(map(str, self.unit(n, i)))))
+                cs.append(">= %d %s" % (r.randint(1, 3), " ".join(map(str, self.unit(n, i, -1)))))
+            return "new %d %s %d cons %d %s" % (oid, topo, n, len(cs), " ".join(cs))
+        if shape == "halfspace":
+            v = self.vec(n, nz=True)
+            return "new %d %s %d cons 1 >= %d %s" % (oid, topo, n, r.randint(-2, 2), " ".join(map(str, v)))
+        if shape == "cone":
+            cs = [">= 0 %s" % " ".join(map(str, self.unit(n, i))) for i in range(n)]
+            return "new %d %s %d cons %d %s" % (oid, topo, n, len(cs), " ".join(cs))
+        if shape == "slab_line":
+            # bounded in some coordinates, a line in another (no equalities)
+            cs = []
+            for i in range(n - 1):
+                cs.append(">= %d %s" % (r.randint(0, 2), " ".join(map(str, self.unit(n, i)))))
+                cs.append(">= %d %s" % (r.randint(1, 3), " ".join(map(str, self.unit(n, i, -1)))))
+            if not cs:
+                return "new %d %s %d universe" % (oid, topo, n)
+            return "new %d %s %d cons %d %s" % (oid, topo, n, len(cs), " ".join(cs))
+        return "new %d %s %d cons %s" % (oid, topo, n, self.cons(n, topo, 1, 3))
+
+    def battery(self, x, n, topo, twin, dirs):
+        """queries, each to be asked of a fresh copy of x in its current lazy state"""
+        qs = ["is_empty", "is_universe", "is_bounded", "is_topologically_closed", "affine_dimension",
+              "equals %d" % twin, "contains %d" % twin, "strictly_contains %d" % twin, "is_disjoint_from %d" % twin]
+        for d in dirs:
+            e = "%d 0 %s" % (n, " ".join(map(str, d)))
+            qs += ["bounds_from_above " + e, "bounds_from_below " + e, "maximize " + e, "minimize " + e]
+        for i in range(n):
+            qs.append("constrains %d" % i)
+        qs.append("relation_with_con %s" % self.con(n, "NNC"))
+        qs.append("relation_with_gen %s" % self.gen(n, topo))
+        return qs
+
+    def lazy_history(self, cid):
+        r = self.r
+        n = r.randint(1, self.maxdim)
+        topo = r.choice(["C", "C", "NNC"])
+        L = ["case %s" % cid, self.base(0, n, topo)]
+        # bring the object to a chosen lazy state
+        for o in r.sample(["minimized_constraints", "minimized_generators", "constraints", "generators"], r.randint(1, 3)):
+            L.append("obs 0 %s" % o)
+        if r.random() < 0.5:
+            L.append("copy 1 0"); L.append("qry 0 equals 1")      # sets sortedness / sat flags
+        # one mutator leaving something pending / stale
+        m = r.random()
+        d = self.vec(n, nz=True)
+        if m < 0.45:
+            kind = r.choice("rrlp")
+            L.append("op 0 add_generator %s" % (self.gen(n, topo, kind) if r.random() < 0.4 else
+                                                  "%s 1 %s" % (kind, " ".join(map(str, d)))))
+        elif m < 0.65:
+            L.append("op 0 add_constraint %s" % self.con(n, topo))
+        elif m < 0.85:
+            v = r.randrange(n)
+            # invertible affine map, e.g. x := c - x
+            a = [0] * n; a[v] = r.choice([-1, 1, 2, -2])
+            L.append("op 0 affine_image %d %d %d %d %s" % (v, r.choice([1, 1, 2, -1]), n, r.randint(-2, 2), " ".join(map(str, a))))
+        else:
+            v = r.randrange(n)
+            a = [0] * n; a[v] = r.choice([-1, 1, 2])
+            L.append("op 0 affine_preimage %d %d %d %d %s" % (v, 1, n, r.randint(-2, 2), " ".join(map(str, a))))
+        # an equal twin built by another route (from a copy: the lazy state of 0 is not disturbed)
+        L.append("twin 2 0 %s" % r.choice(["cons", "gens", "cons_nm", "gens_nm"]))
+        if r.random() < 0.5: L.append("obs 2 %s" % r.choice(["minimized_constraints", "minimized_generators"]))
+        dirs = [d, [-x for x in d], self.vec(n, nz=True)]
+        k = 3
+        qs = self.battery(0, n, topo, 2, dirs)
+        r.shuffle(qs)
+        for q in qs[: r.randint(6, 12)]:
+            L.append("copy %d 0" % k)
+            L.append("qry %d %s" % (k, q))
+            k += 1
+        L.append("qry 0 equals 2")
+        L.append("stall"); L.append("end")
+        return L
+
+
+def make_lazy_cases(seed, count, maxdim=3, start=0):
+    g = Lazy(seed, maxdim, big=0.02)
+    out = []
+    for i in range(count):
+        out += g.lazy_history("L%d" % (start + i))
+    return out
